@@ -868,8 +868,12 @@ def main(run):
     jobs = [['work_corpus', {'seed': seed, 'files': b, 'npos': npos, 'nmut': nmut, 'lint_mut_max': run.pick(30000, 100000)}]
             for b in _bins(files, run.pick(32, 96))]
     H = ci.hostile_cases()
-    idx = list(range(len(H)))
-    hjobs = [['work_hostile', {'indexes': c, 'outside': i == 0}] for i, c in enumerate(core.chunks(idx, 8))]
+    def hcost(i):
+        n = len(H[i]['text'])
+        return -(n * n if H[i].get('positions') is None else n * len(H[i]['positions']))
+    idx = sorted(range(len(H)), key=hcost)
+    nh = 48
+    hjobs = [['work_hostile', {'indexes': idx[k::nh], 'outside': k == 0}] for k in range(nh) if idx[k::nh]]
     cjobs = [['work_compiled', {'modules': c}] for c in core.chunks(ci.COMPILED_MODULES, 5)]
     ngen = run.pick(16, 96)
     gjobs = [['work_gen', {'seed': seed, 'start': s, 'count': 2, 'sizes': ['tiny', 'small'], 'exhaustive_sizes': ['tiny', 'small'],
@@ -880,7 +884,7 @@ def main(run):
     ncls = run.pick(16, 128)
     kjobs = [['work_class', {'seed': seed, 'start': s, 'count': 4, 'npos': run.pick(8, 20)}] for s in range(0, ncls, 4)]
     # long jobs first
-    alljobs = jobs[:len(jobs) // 2] + gjobs + hjobs + jobs[len(jobs) // 2:] + kjobs + cjobs
+    alljobs = hjobs[:8] + jobs[:len(jobs) // 2] + gjobs + hjobs[8:] + jobs[len(jobs) // 2:] + kjobs + cjobs
     maxs = collect(run, alljobs, timeout=run.pick(1200, 3600))
     run.extra['step_budget'] = {
         'budget': 'B(n) = 2e7 + 2e4*n LINE events on supp code objects for an n-byte text; 8*B on the second run',
